@@ -280,6 +280,69 @@ def h_rank(N):
     return fn
 
 
+def h_via_data(T, P):
+    """ObsFcstBased.compute_single and FromField.compute_single on a real Data
+    object: `-x obs` / `-x fcst` restrict the pairs to those whose observation
+    / forecast lies in the interval; obs / fcst statistics use their own field
+    (plus the conditioning field)."""
+    def fn(S):
+        from harness import common
+        data = load.modules["verif.data"]
+        metric = load.modules["verif.metric"]
+        util = load.modules["verif.util"]
+        ax = load.modules["verif.axis"]
+        aggmod = load.modules["verif.aggregator"]
+        MI = common.input_class()
+        shape = (T, 1, P)
+        obs, fcst = S.array("obs", shape), S.array("fcst", shape)
+        inp = MI("A.txt", common.int_array(S, [86400 * i for i in range(T)]), S.vector([0.0]),
+                 common.locations(list(range(1, P + 1))), obs=obs.copy(), fcst=fcst.copy())
+        D = data.Data([inp])
+        name = ["Mae", "Bias", "Obs", "Fcst"][S.choose("metric", 4)]
+        axname = ["obs", "fcst", "no"][S.choose("axis", 3)]
+        agg = ["mean", "max"][S.choose("agg", 2)]
+        bt = ["within", "above="][S.choose("bin", 2)]
+        t1, t2 = S.real("t1"), S.real("t2")
+        iv = util.get_intervals(bt, S.vector([t1, t2]))[0]
+        m = getattr(metric, name)()
+        m.aggregator = ref.make_aggregator(aggmod, agg)
+        axis = {"obs": ax.Obs(), "fcst": ax.Fcst(), "no": ax.No()}[axname]
+        got = m.compute(D, 0, axis, iv)
+        S.observe("score", got)
+        S.prove("one-value", len(got) == 1)
+        cells = [(t, 0, p) for t in range(T) for p in range(P)]
+
+        def present(x):
+            return S.not_(S.isnan(x))
+        sel = []
+        for c in cells:
+            need_obs = name != "Fcst" or axname == "obs"
+            need_fcst = name != "Obs" or axname == "fcst"
+            ok = S.and_(present(obs[c]) if need_obs else True, present(fcst[c]) if need_fcst else True)
+            if axname == "obs":
+                ok = S.and_(ok, event(S, obs[c], bt, t1, t2))
+            elif axname == "fcst":
+                ok = S.and_(ok, event(S, fcst[c], bt, t1, t2))
+            if bool(ok):
+                sel.append(c)
+        tag = "%s/%s/-x %s/%s" % (name, agg, axname, bt)
+        if not sel:
+            S.prove("no-selected-pair-is-not-a-number", S.not_(S.isfinite(got[0])), detail=tag)
+            return
+        o = [obs[c] for c in sel]
+        f = [fcst[c] for c in sel]
+        if name == "Mae":
+            want = ref.r_agg(S, agg, [S.abs(a - b) for a, b in zip(o, f)])
+        elif name == "Bias":
+            want = ref.r_agg(S, agg, [b - a for a, b in zip(o, f)])
+        elif name == "Obs":
+            want = ref.r_agg(S, agg, o)
+        else:
+            want = ref.r_agg(S, agg, f)
+        S.prove("conditional-score=definition-on-the-selected-pairs", S.same(got[0], want), twin=S.same(got[0], want + 1), detail=tag)
+    return fn
+
+
 def harnesses(tier):
     thorough = tier == "thorough"
     return [
@@ -288,4 +351,5 @@ def harnesses(tier):
         Harness("perfect", h_perfect(4 if thorough else 3), "forecast == observation attains perfect_score"),
         Harness("within_cond", h_within_cond(3 if thorough else 2), "Within, Conditional, XConditional, Count"),
         Harness("rank", h_rank(3), "RankCorr / KendallCorr vs Spearman's rho / Kendall's tau-b"),
+        Harness("via_data", h_via_data(2, 2 if thorough else 1), "-x obs / -x fcst and obs / fcst statistics through Data"),
     ]
